@@ -62,7 +62,12 @@ func buildExprs(exprs []Expression, builder Builder, joinCond string) {
 				}
 			case AndConditions:
 				if len(v.Exprs) == 1 {
-					if e, ok := v.Exprs[0].(Expr); ok {
+					inner := v.Exprs[0]
+					// a leading Or condition grouped by clause.And, e.g. by the soft delete filter
+					if or, ok := inner.(OrConditions); ok && len(or.Exprs) == 1 {
+						inner = or.Exprs[0]
+					}
+					if e, ok := inner.(Expr); ok {
 						wrapInParentheses = containsAndOr(e.SQL)
 					}
 				}
